@@ -319,7 +319,11 @@ func runC17(c *rt.Ctx) {
 	for _, init := range inits {
 		for _, o0 := range mk("0") {
 			for _, o1 := range mk("1") {
-				for _, o2 := range []wire.Op{{Kind: "get", Key: "a"}, {Kind: "gete", Key: "b"}} {
+				third := []wire.Op{{Kind: "get", Key: "a"}, {Kind: "gete", Key: "b"}}
+				if c.Thorough() {
+					third = mk("2") // a third connection issuing any command
+				}
+				for _, o2 := range third {
 					item++
 					if !c.Mine(item) {
 						continue
